@@ -55,6 +55,9 @@ def breakers(rnd, m):
     for name in ("gauss", "uniform", "schulz_zimm", "log_normal", "poisson", "flory_schulz"):
         if name + "(" in text:
             out.append(("unknown-distribution", text.replace(name + "(", rnd.choice(["gamma", "normal", "weibull", "gaus", "uni_form"]) + "(", 1)))
+            # an unknown name that CONTAINS the known one (as a suffix, as a prefix, in the middle): still not a known distribution
+            out.append(("unknown-distribution", text.replace(name + "(", rnd.choice(["trunc_", "x", "inverse_", "my", "log"]) + name + "(", 1)))
+            out.append(("unknown-distribution", text.replace(name + "(", name + rnd.choice(["ian", "2", "_x", "s"]) + "(", 1)))
             break
     # transition list of the wrong length
     lists = [mm for mm in dpos if mm.group(1) and len(mm.group(1).strip("|").split()) > 1]
